@@ -74,12 +74,13 @@ def brew_cases(ctx, rng):
             for r in rows:
                 r["f"][1] = 100 - r["f"][0]
             extra["direction"] = "f2"
+            extra["train_thr"] = [1, 4]          # below 1, so that the ascending orientation wins the start-label count
         if j % 7 == 5:
             extra["est_offset"] = [1000000, -250000][j % 2]      # decision function with a large intercept
-        cases.append({**extra, "files": [{"rows": rows}], "folds": folds, "workers": 1 + j % 3, "cap": None, "keyw": 2,
+        cases.append({"files": [{"rows": rows}], "folds": folds, "workers": 1 + j % 3, "cap": None, "keyw": 2,
                       "fmt": "pin", "thr": thr, "train_thr": [1, 1], "pred_chunk": int(rng.choice([11, 40, 700000])),
                       "read_chunk": 200000, "seed": j, "est": ["feat", "feat", "anti", "proba"][j % 4], "col": 1,
-                      "override": True})      # the user forces use of the model: the best-feature fallback is C07's business
+                      "override": True, **extra})      # the user forces use of the model: the best-feature fallback is C07's business
     return cases
 
 
